@@ -25,6 +25,26 @@ def retrieve_name(var):
     return first_name
 
 
+def attribute_name(obj, var, default):
+    """
+    The name of the attribute under which an operand is kept on a compound object.
+
+    The name of a variable holding the operand is used if there is one, unless it
+    starts with an underscore (such attributes are not part of the model) or is
+    already the name of an attribute, property or method of the compound object,
+    which would then be overwritten by the operand (or overwrite the operand).
+    """
+    name = retrieve_name(var)
+    if (
+        name is None
+        or name.startswith("_")
+        or hasattr(type(obj), name)
+        or name in obj.__dict__
+    ):
+        return default
+    return name
+
+
 class Compound:
     @classmethod
     def from_dict(
@@ -73,14 +93,8 @@ class CompoundPrior(AbstractPriorModel, ArithmeticMixin, Compound, ABC):
         """
         super().__init__()
 
-        self._left_name = retrieve_name(left) or "left"
-        self._right_name = retrieve_name(right) or "right"
-
-        if self._left_name == "left":
-            self._left_name = "left_"
-
-        if self._right_name == "right":
-            self._right_name = "right_"
+        self._left_name = attribute_name(self, left, "left_")
+        self._right_name = attribute_name(self, right, "right_")
 
         if self._left_name == self._right_name and left is not right:
             # different operands must not share one attribute name, else the
@@ -336,10 +350,7 @@ class ModifiedPrior(AbstractPriorModel, ABC, ArithmeticMixin, Compound):
 
     def __init__(self, prior, name=None):
         super().__init__()
-        self._prior_name = name or retrieve_name(prior)
-
-        if self._prior_name == "prior":
-            self._prior_name = "prior_"
+        self._prior_name = name or attribute_name(self, prior, "prior_")
 
         self.prior = prior
 
